@@ -113,3 +113,113 @@ Theorem C09_codon_start_origin_refuted :
   exists g cs, spanning_gene g = true /\ 1 <= cs <= 3 /\ frameshift g cs false = Err E_Assert.
 Proof. exact codon_start_origin_refuted. Qed.
 Print Assumptions C09_codon_start_origin_refuted.
+
+(* ---------- the codon_start path and the loading path of a CDS ---------- *)
+(* [first_exon_len g] = length of the first LISTED exon (the 5' one); [shorten]ed by codon_start-1
+   bases it stays non-empty iff codon_start-1 < first_exon_len g.
+
+   The location adjusted for /codon_start = cs (Feature.from_biopython, CDSFeature.from_biopython)
+   of a gene that does not span the origin exists, lies inside the annotated location, and reads it
+   from base cs-1 on - coordinates (idx) and, for every sequence, bases (extract); it has cs-1 bases
+   less, and (if the first exon is longer than the offset) again does not span the origin *)
+Theorem C09_codon_start_reads : forall g cs,
+  guard_gene g = true -> 1 <= cs <= 3 -> cs - 1 <= first_exon_len g ->
+  exists g', frameshift g cs false = Ok g' /\
+    idx g' = skipn (Z.to_nat (cs - 1)) (idx g) /\
+    llen g' = llen g - (cs - 1) /\
+    contains g g' = true /\
+    (forall sq, extract sq g' = skipn (Z.to_nat (cs - 1)) (extract sq g)) /\
+    (cs - 1 < first_exon_len g -> guard_gene g' = true).
+Proof. exact codon_start_reads. Qed.
+Print Assumptions C09_codon_start_reads.
+
+(* DESIGN C09_codon_start: with a codon_start offset the sub-location is computed on the adjusted
+   location g': for every residue range of g' it exists, lies inside the ANNOTATED location, has
+   three bases per residue, reads exactly the bases cs-1+3s .. cs-1+3e of the annotated location,
+   translates (any codon table, any sequence) to residues [s,e) of the translation of g' - and
+   to_biopython's undo restores the annotated location *)
+Theorem C09_codon_start : forall g cs s e end_after start_before,
+  guard_gene g = true -> 1 <= cs <= 3 -> cs - 1 < first_exon_len g ->
+  0 <= s < e -> e <= (llen g - (cs - 1)) / 3 ->
+  exists g' sub, frameshift g cs false = Ok g' /\ get_sub g' end_after start_before s e = Ok sub /\
+    idx g' = skipn (Z.to_nat (cs - 1)) (idx g) /\
+    contains g sub = true /\ llen sub = 3 * (e - s) /\
+    idx sub = sublist (cs - 1 + 3 * s) (cs - 1 + 3 * e) (idx g) /\
+    (forall sq, extract sq sub = sublist (cs - 1 + 3 * s) (cs - 1 + 3 * e) (extract sq g)) /\
+    (forall sq cod, translate cod (extract sq sub) = sublist s e (translate cod (extract sq g'))) /\
+    frameshift g' cs true = Ok g.
+Proof. exact codon_start_subloc. Qed.
+Print Assumptions C09_codon_start.
+
+Example C09_codon_start_path_nonvacuous :
+  let g := [mkPart 40 52 (-1); mkPart 20 31 (-1)] in
+  guard_gene g = true /\ 3 - 1 < first_exon_len g /\ 4 <= (llen g - (3 - 1)) / 3 /\
+  frameshift g 3 false = Ok [mkPart 40 50 (-1); mkPart 20 31 (-1)] /\
+  get_sub [mkPart 40 50 (-1); mkPart 20 31 (-1)] false false 1 4 = Ok [mkPart 40 47 (-1); mkPart 29 31 (-1)].
+Proof.
+  split; [vm_compute; reflexivity|]. split; [vm_compute; reflexivity|]. split; [vm_compute; discriminate|].
+  split; vm_compute; reflexivity.
+Qed.
+
+(* The loading path CDSFeature.from_biopython (as called by Record.from_biopython) for a CDS with
+   /codon_start = cs on a gene of strand 1/-1 that does not span the origin, lies inside the record
+   and keeps at least one codon: the CDS is built; its location is the annotated one adjusted ONCE
+   (frameshift l cs false); its stored translation is generated from exactly that location
+   (aa_translation ... g, first residue forced to M); _original_codon_start = cs-1; writing it out
+   gives back the annotated location and the qualifier; with a stop-free frame the stored residues
+   are the codon-by-codon translation of the gene's location *)
+Theorem C09_cds_load : forall tbl sq n l cs,
+  guard_gene l = true -> lstrand l = 1 \/ lstrand l = -1 -> 1 <= cs <= 3 ->
+  cs - 1 < first_exon_len l -> lend l <= n -> 3 <= llen l - (cs - 1) ->
+  exists g t0, frameshift l cs false = Ok g /\
+    aa_translation tbl sq n g = Ok t0 /\ t0 <> [] /\
+    cds_from_biopython tbl sq n l cs = Ok (g, mfix t0, cs - 1) /\
+    cds_to_biopython g (cs - 1) = Ok (l, cs) /\
+    (~ In AA_STOP (translate (codon_of tbl) (extract sq g)) ->
+     t0 = map replace_invalid (translate (codon_of tbl) (extract sq g))).
+Proof. exact cds_load. Qed.
+Print Assumptions C09_cds_load.
+
+(* end to end on a loaded CDS (stop-free frame; residue 0 is stored as M whatever its codon, so
+   ranges start at residue 1): the sub-location of residues [s,e) exists, lies inside the ANNOTATED
+   location, has three bases per residue, reads bases cs-1+3s .. cs-1+3e of it, and extracting and
+   translating it gives exactly residues [s,e) of the STORED translation *)
+Theorem C09_cds_load_subloc_partial : forall tbl sq n l cs g t ocs s e,
+  guard_gene l = true -> lstrand l = 1 \/ lstrand l = -1 -> 1 <= cs <= 3 ->
+  cs - 1 < first_exon_len l -> lend l <= n -> 3 <= llen l - (cs - 1) ->
+  cds_from_biopython tbl sq n l cs = Ok (g, t, ocs) ->
+  ~ In AA_STOP (translate (codon_of tbl) (extract sq g)) ->
+  1 <= s < e -> e <= llen g / 3 ->
+  exists sub, get_sub g false false s e = Ok sub /\
+    contains l sub = true /\ llen sub = 3 * (e - s) /\
+    idx sub = sublist (cs - 1 + 3 * s) (cs - 1 + 3 * e) (idx l) /\
+    map replace_invalid (translate (codon_of tbl) (extract sq sub)) = sublist s e t.
+Proof. exact cds_load_subloc. Qed.
+Print Assumptions C09_cds_load_subloc_partial.
+
+(* non-vacuity: a forward two-exon gene split inside a codon, codon_start 2, a table without stop
+   codons (every codon 'A' = 65), on a record of 60 bases *)
+Example C09_cds_load_nonvacuous :
+  let l := [mkPart 3 10 1; mkPart 15 30 1] in
+  let tbl := repeat 65 64 in
+  guard_gene l = true /\ lstrand l = 1 /\ 2 - 1 < first_exon_len l /\ lend l <= 60 /\ 3 <= llen l - (2 - 1) /\
+  cds_from_biopython tbl (fun _ => 0) 60 l 2
+    = Ok ([mkPart 4 10 1; mkPart 15 30 1], [77; 65; 65; 65; 65; 65; 65], 1) /\
+  ~ In AA_STOP (translate (codon_of tbl) (extract (fun _ => 0) [mkPart 4 10 1; mkPart 15 30 1])) /\
+  get_sub [mkPart 4 10 1; mkPart 15 30 1] false false 1 3 = Ok [mkPart 7 10 1; mkPart 15 18 1].
+Proof.
+  split; [vm_compute; reflexivity|]. split; [vm_compute; reflexivity|]. split; [vm_compute; reflexivity|].
+  split; [vm_compute; discriminate|]. split; [vm_compute; discriminate|]. split; [vm_compute; reflexivity|].
+  split; [|vm_compute; reflexivity].
+  vm_compute. intros H. repeat (destruct H as [H|H]; [discriminate H|]). exact H.
+Qed.
+
+(* FALSE for a gene whose exons overlap by 1-2 bases (programmed frameshift; finding
+   overlapping_exons_sublocation): residue 3 of join{[32:43](+), [42:45](+)} is placed at [41:43] -
+   two bases, not the three that encode it ([41:43] + [42:43]) *)
+Theorem C09_subloc_overlap_refuted :
+  exists g s e sub, slippage_gene g = true /\ 0 <= s < e /\ e <= llen g / 3 /\
+    get_sub g false false s e = Ok sub /\ llen sub <> 3 * (e - s) /\
+    idx sub <> sublist (3 * s) (3 * e) (idx g).
+Proof. exact subloc_overlap_refuted. Qed.
+Print Assumptions C09_subloc_overlap_refuted.
